@@ -89,6 +89,9 @@ def install(E):
     def readbuf_poll(E, a, ctx):
         rb = E.load(a[0].fields[0])
         sref, bref = rb.fields
+        return read_core(E, sref, bref)
+
+    def read_core(E, sref, bref):
         sock = E.load(sref)
         buf = E.load(bref)
         E.nread = getattr(E, 'nread', 0) + 1
@@ -142,6 +145,21 @@ def install(E):
         E.store(sref, sock.upd(rpos=sock.rpos + n))
         E.events.append(('read', n, ln))       # ln = bytes already held by the buffer that is read into
         return ready(ok(n))
+
+    # non-blocking read: what the awaited read would deliver now, or WouldBlock when nothing has arrived yet (the peer's bytes,
+    # its FIN or its RST may all still be on their way)
+    @reg(E, 'tokio::net::TcpStream::try_read_buf', 'TcpStream::try_read_buf')
+    def try_read_buf(E, a, ctx):
+        sref, bref = a[0], a[1]
+        if E.choose(2, 'arrived') == 1:
+            E.events.append(('try_read', 'wouldblock'))
+            return err(Agg('io::Error', [Enum('ErrorKind', 'WouldBlock'), None]))
+        r = read_core(E, sref, bref)
+        if r is PENDING or (isinstance(r, Enum) and r.var == 1):
+            # a silent peer: nothing will ever arrive
+            E.events.append(('try_read', 'wouldblock'))
+            return err(Agg('io::Error', [Enum('ErrorKind', 'WouldBlock'), None]))
+        return r.fields[0]
 
     # ------------------------------------------------------------------ writes / shutdown
     @reg_re(E, r'^<(tokio::net::TcpStream|tokio::io::BufWriter<tokio::net::TcpStream>|BufWriter<tokio::net::TcpStream>|tokio::io::BufStream<tokio::net::TcpStream>) as AsyncWriteExt>::write_all$')
